@@ -221,7 +221,8 @@ void XMLWriter::init(const template_t& templ)
 /* writes the source of the given edge */
 int XMLWriter::source(const edge_t& edge)
 {
-    int loc = edge.src->nr;
+    // branchpoints are numbered after the locations of the template
+    int loc = (edge.src != nullptr) ? edge.src->nr : branchpointOffset + edge.srcb->bpNr;
     const auto id = concat("id", loc);
     startElement("source");
     writeAttribute("ref", id.c_str());
@@ -232,7 +233,7 @@ int XMLWriter::source(const edge_t& edge)
 /* writes the target of the given edge */
 int XMLWriter::target(const edge_t& edge)
 {
-    int loc = edge.dst->nr;
+    int loc = (edge.dst != nullptr) ? edge.dst->nr : branchpointOffset + edge.dstb->bpNr;
     const auto id = concat("id", loc);
     startElement("target");
     writeAttribute("ref", id.c_str());
@@ -275,7 +276,7 @@ void XMLWriter::transition(const edge_t& edge)
     auto src = source(edge);
     auto dst = target(edge);
     if (src == dst) {
-        float angle = (edge.src->uid.get_name() != "lpmin") ? (3 * M_PI_2) : M_PI;
+        float angle = (edge.src == nullptr || edge.src->uid.get_name() != "lpmin") ? (3 * M_PI_2) : M_PI;
         selfLoop(src, angle, edge);
     } else {
         int x = STEP * src;
@@ -328,6 +329,17 @@ void XMLWriter::taTempl(const template_t& templ)
     for (auto& loc : templ.locations) {
         location(loc);
         selfLoops[loc.nr] = 0;
+    }
+    // branchpoints
+    branchpointOffset = templ.locations.size();
+    for (auto& bp : templ.branchpoints) {
+        int id = branchpointOffset + bp.bpNr;
+        startElement("branchpoint");
+        writeAttribute("id", concat("id", id).c_str());
+        writeAttribute("x", std::to_string(STEP * id).c_str());
+        writeAttribute("y", std::to_string(STEP * id).c_str());
+        endElement();
+        selfLoops[id] = 0;
     }
     // initial location
     init(templ);
